@@ -212,6 +212,25 @@ def get_iface(topo, ref):
         raise Unresolved(f'interface {ref}')
 
 
+def kept_iface(topo, ref, cached=False):
+    """cached=True: the port handle a caller obtained earlier and kept (its list of sub-interfaces is as old as the handle);
+    otherwise a handle looked up now."""
+    if not cached or ref[0] == 'stale':
+        return get_iface(topo, ref)
+    hs = topo.__dict__.setdefault('_verif_iface_handles', {})
+    k = '/'.join(map(str, ref))
+    h = hs.get(k)
+    if h is not None:
+        try:
+            # the kept handle must still denote the element the reference names now (names are recycled)
+            if get_iface(topo, ref).node_id == h.node_id:
+                return h
+        except Unresolved:
+            raise
+    hs[k] = get_iface(topo, ref)
+    return hs[k]
+
+
 def get_service(topo, name, cached=False):
     """cached=True: reuse the handle object an earlier call returned (users keep handles), if there is one.
     name = ['stale', k]: a handle whose service was removed after the handle was obtained (op make_stale_services)."""
@@ -352,9 +371,9 @@ def execute(topo, op):
     if o == 'unpeer':
         return get_service(topo, op['a'], op.get('cached')).unpeer(get_service(topo, op['b'], op.get('cached')))
     if o == 'add_child_interface':
-        return get_iface(topo, op['iface']).add_child_interface(name=op['name'], node_id=op.get('node_id'), **kw)
+        return kept_iface(topo, op['iface'], op.get('cached')).add_child_interface(name=op['name'], node_id=op.get('node_id'), **kw)
     if o == 'remove_child_interface':
-        return get_iface(topo, op['iface']).remove_child_interface(name=op['name'])
+        return kept_iface(topo, op['iface'], op.get('cached')).remove_child_interface(name=op['name'])
     if o == 'add_link':
         return topo.add_link(name=op['name'], node_id=op.get('node_id'), ltype=LinkType[op['ltype']],
                              interfaces=[get_iface(topo, r) for r in op['interfaces']], **kw)
@@ -494,11 +513,25 @@ class Gen:
                 {'op': 'add_node', 'name': name, 'node_id': self.maybe_id('n'), 'site': self.rng.choice(SITES), 'ntype': 'VM', 'kw': {}},
                 {'op': 'remove_node', 'name': name}]
 
+    def two_handles_macro(self):
+        """A caller holds on to a port handle while sub-interfaces are also added through a handle looked up later: the second
+        name / VLAN offered through the older handle is already taken in the model (and must be refused)."""
+        tm = tm_of(self.topo)
+        ded = [(ref, i) for ref, i in self.iface_refs(tm, with_subs=False) if tm.typ(i) == 'DedicatedPort']
+        if not ded:
+            return []
+        ref, i = self.rng.choice(ded)
+        a, b, c = self.fresh('sub'), self.fresh('sub'), self.fresh('sub')
+        v = self.rng.randrange(2000, 3000)
+        mk = lambda name, vlan, cached: {'op': 'add_child_interface', 'iface': ref, 'name': name, 'node_id': self.maybe_id('sub'),
+                                         'kw': {'labels': {'vlan': str(vlan)}}, 'cached': cached}
+        return [mk(a, v, True), mk(b, v + 1, False), mk(b, v + 2, True), mk(c, v + 1, True)]
+
     def next_op(self):
         if getattr(self, 'pending', None):
             return self.pending.pop(0)
-        if self.rng.random() < 0.03:
-            self.pending = self.recycle_name_macro()
+        if self.rng.random() < 0.04:
+            self.pending = self.recycle_name_macro() if self.rng.random() < 0.6 else self.two_handles_macro()
             if self.pending:
                 return self.pending.pop(0)
         op = self._next_op()
@@ -518,7 +551,7 @@ class Gen:
             if ids:
                 op['node_id'] = self.rng.choice(ids)
         if op['op'] in ('service_add_interface', 'service_remove_interface', 'connect_interface', 'disconnect_interface',
-                        'peer', 'unpeer') and self.rng.random() < 0.4:
+                        'peer', 'unpeer', 'add_child_interface', 'remove_child_interface') and self.rng.random() < 0.4:
             op['cached'] = True
         return op
 
